@@ -33,8 +33,31 @@ SPEC = {
         "thorough": {"shards": 16, "budget_s": 1200},
     },
     "floors": {
-        "quick": {},
-        "thorough": {},
+        "quick": {"histories": 16, "evaluations": 400, "distinct_nontrivial": 250, "nontrivial_proposals": 250,
+                  "proposals_returned": 200, "proposals_returned:standard_transfer": 20, "proposals_returned:transfer": 40,
+                  "proposals_returned:send_max": 40, "proposals_returned:shielding": 20,
+                  "proposals_returned_with_lock_request": 60, "multi_step_proposals": 5,
+                  "inputs_checked": 1500, "inputs_checked_transparent": 80, "witness_verifications": 800,
+                  "step_balances_checked": 200, "request_above_upper_bound_refused": 20,
+                  "proposals_with_ineligible_present:spent_pending": 30, "proposals_with_ineligible_present:locked_foreign": 100,
+                  "proposals_with_ineligible_present:locked_own": 10, "proposals_with_ineligible_present:too_shallow": 200,
+                  "proposals_with_ineligible_present:other_account": 400,
+                  "pending_transactions_stored": 15, "pending_transactions_mined": 5, "pending_transactions_expired_unmined": 4,
+                  "lock_outputs_ok": 40, "unlock_output_calls": 10, "clear_locked_outputs_calls": 5, "rewinds": 4,
+                  "diag_sendmax_selection_equals_model": 30, "diag_shielding_selection_equals_model": 15},
+        "thorough": {"histories": 300, "evaluations": 8000, "distinct_nontrivial": 2500, "nontrivial_proposals": 5000,
+                     "proposals_returned": 4000, "proposals_returned:standard_transfer": 400, "proposals_returned:transfer": 800,
+                     "proposals_returned:send_max": 800, "proposals_returned:shielding": 400,
+                     "proposals_returned_with_lock_request": 1200, "multi_step_proposals": 100,
+                     "inputs_checked": 30000, "inputs_checked_transparent": 1500, "witness_verifications": 15000,
+                     "step_balances_checked": 4000, "request_above_upper_bound_refused": 400,
+                     "proposals_with_ineligible_present:spent_pending": 600, "proposals_with_ineligible_present:locked_foreign": 2000,
+                     "proposals_with_ineligible_present:locked_own": 200, "proposals_with_ineligible_present:too_shallow": 4000,
+                     "proposals_with_ineligible_present:other_account": 8000,
+                     "pending_transactions_stored": 300, "pending_transactions_mined": 100, "pending_transactions_expired_unmined": 80,
+                     "pending_created_with_real_halo2_proofs": 10, "pending_created_real_prover": 20,
+                     "lock_outputs_ok": 800, "unlock_output_calls": 200, "clear_locked_outputs_calls": 100, "rewinds": 80,
+                     "diag_sendmax_selection_equals_model": 600, "diag_shielding_selection_equals_model": 300},
     },
     "manifest": {
         "technique": "history + executable eligibility model: every input of every step of every proposal returned by the public proposal API during generated receive/spend/scan/rewind/lock/pending-transaction histories is judged against ground truth (owner, spent-ness incl. unexpired pending spends, confirmations, lock owner/expiry, uniqueness, exact step balance) and its witness is verified against the true root at the proposal's anchor",
